@@ -44,8 +44,13 @@ RULES = {
     "be kept current: a second sort() after a rewiring returns without looking, leaving an invalid order or an unreported cycle - the "
     "result would depend on the call history of the object, not on its structure and previous order; fields bound once in the "
     "constructor (the live containers) may be read",
+    "R10": "the order of the result is the priority queue's: in the loop that drains the queue, the node that is emitted is bound from "
+    "`heapq.heappop(<queue>)` and from nothing else, and a node whose last consumer has been emitted (the zero test on its counter) is "
+    "handed to `heapq.heappush` under no further condition - a node passed on directly (a shortcut for straight-line chains) overtakes "
+    "nodes that wait in the queue with an earlier claim, so a graph that is already in a valid order is rewritten: stability, not validity, "
+    "is what is lost",
 }
-FLOORS = {"R1": 2, "R2": 4, "R3": 3, "R4": 1, "R5": 2, "R6": 2, "R7": 2, "R8": 1, "R9": 1}
+FLOORS = {"R1": 2, "R2": 4, "R3": 3, "R4": 1, "R5": 2, "R6": 2, "R7": 2, "R8": 1, "R9": 1, "R10": 2}
 EXPLANATION = (
     "Dominance of the cycle rejection over every state-writing call of Graph.sort (effect summaries), and structural "
     "checks that relinking goes through the ownership-preserving API into the graph each node already belongs to."
@@ -387,6 +392,52 @@ def run(ctx):
                               construct=f"sort consults the memo field {hit.attr}")
     ctx.ob("R9", f"{n9} conditions of the sort examined; re-bound Graph fields: {sorted(rebound)}", True, how="field_writes(store) outside Graph.__init__ ∩ Graph.__slots__")
     ctx.require(n9 >= 5, f"only {n9} conditions found in Graph.sort")
+    # R10: emission order is the queue's
+    n10 = 0
+    # the drain loop may live in a private module-level helper that sort() (or a phase of it) calls - also one that counts down in place
+    drain_parts = list(parts)
+    for host in list(parts):
+        for c in calls_in(host):
+            d = dotted_of(c.func) or ""
+            g_ = mod0.functions.get(d) if d.startswith("_") and "." not in d else None
+            if g_ is not None and not isinstance(g_.node, ast.Lambda) and all(g_ is not x for x in drain_parts):
+                drain_parts.append(g_)
+    for q in drain_parts:
+        pops = [c for c in calls_in(q) if (dotted_of(c.func) or "").endswith("heappop")]
+        for c in pops:
+            st = getattr(c, "_parent", None)
+            if not isinstance(st, ast.Assign):
+                continue
+            tg = st.targets[0]
+            names = [e.id for e in (tg.elts if isinstance(tg, ast.Tuple) else [tg]) if isinstance(e, ast.Name) and e.id != "_"]
+            lp = getattr(st, "_parent", None)
+            while lp is not None and not isinstance(lp, (ast.While, ast.For)):
+                lp = getattr(lp, "_parent", None) if lp is not q.node else None
+            if lp is None or not names:
+                continue
+            emitted = names[-1]
+            n10 += 1
+            other = [a for a in ast.walk(lp) if isinstance(a, (ast.Assign, ast.AnnAssign, ast.AugAssign, ast.For)) and a is not st and any(
+                isinstance(y, ast.Name) and y.id == emitted and isinstance(y.ctx, ast.Store) for t in (
+                    a.targets if isinstance(a, ast.Assign) else [a.target]) for y in ast.walk(t))]
+            ctx.check("R10", f"{q.local}: the emitted node `{emitted}` comes from the queue only", not other, q, other[0] if other else st,
+                      f"`{norm(other[0])[:70] if other else ''}` binds the node that is emitted next from something else than `{norm(c)[:40]}`: it jumps the queue - nodes with an "
+                      "earlier place in the previous order are still waiting, so a graph that was already in a valid order comes out rearranged (`[A, B, C, D]` with C after A and "
+                      "D after B becomes `[A, C, B, D]`)",
+                      how="bindings of the name that receives heapq.heappop inside the drain loop", construct="emitted node bound outside heappop")
+            # every node that becomes free is pushed, whatever else holds
+            for iff in (x for x in ast.walk(lp) if isinstance(x, ast.If)):
+                zero = any(isinstance(y, ast.Compare) and len(y.ops) == 1 and isinstance(y.ops[0], (ast.Eq, ast.LtE)) and isinstance(y.comparators[0], ast.Constant)
+                           and y.comparators[0].value == 0 for y in ast.walk(iff.test))
+                if not zero:
+                    continue
+                n10 += 1
+                direct = any(isinstance(b, ast.Expr) and isinstance(b.value, ast.Call) and (dotted_of(b.value.func) or "").endswith("heappush") for b in iff.body)
+                ctx.check("R10", f"{q.local}: a node whose counter reaches zero is pushed unconditionally", direct, q, iff,
+                          f"under `{norm(iff.test)[:50]}` the freed node is not simply pushed onto the queue (the push is missing from the branch or sits under a further condition): "
+                          "a node that bypasses the queue is emitted ahead of nodes that were in front of it",
+                          how="the zero test of the drain loop has heapq.heappush as a direct statement of its body", construct="freed node not pushed unconditionally")
+    ctx.require(n10 >= 2, "the drain loop of Graph.sort (heappop / zero test) was not found")
     # R7
     from ..shared import ref_attr_guards
 
